@@ -1366,6 +1366,13 @@ func valueReaches(v ssa.Value, call *ssa.Call, depth int) bool {
 				return true
 			}
 		}
+		if x.Call.IsInvoke() && valueReaches(x.Call.Value, call, depth-1) {
+			return true
+		}
+	case *ssa.Convert:
+		return valueReaches(x.X, call, depth-1)
+	case *ssa.ChangeType:
+		return valueReaches(x.X, call, depth-1)
 	case *ssa.Extract:
 		return valueReaches(x.Tuple, call, depth-1)
 	case *ssa.Phi:
